@@ -355,4 +355,53 @@ theorem naive_code_count_suffices_of_var_ge_one (K : ℕ) (hK : 2 ≤ K) (nv ε 
   rw [RealLike.sqrt_real]
   nlinarith
 
+/-! ### monotonicity of the required sample count -/
+
+/-- **A stricter request never needs fewer samples.**  The real number handed to `np.ceil` is antitone in
+the accuracy `ε` and in the confidence parameter `δ`: for `0 < ε' ≤ ε`, `0 < δ' ≤ δ ≤ 1`, `K ≥ 2`,
+`m ≥ 1`, the value for `(ε', δ')` is at least the value for `(ε, δ)` (any `c, s, β`).  Together with the
+monotonicity of `ceil` the default `L` can only grow when `ε` or `δ` shrinks. -/
+theorem naiveLreal_antitone (c s β ε ε' δ δ' : ℝ) (m K : ℕ) (hK : 2 ≤ K) (hm : 1 ≤ m)
+    (hε' : 0 < ε') (hε : ε' ≤ ε) (hδ' : 0 < δ') (hδ : δ' ≤ δ) (hδ1 : δ ≤ 1) :
+    naiveLreal c s β ε δ m K ≤ naiveLreal c s β ε' δ' m K := by
+  rw [naiveLreal_real, naiveLreal_real]
+  have hε0 : 0 < ε := lt_of_lt_of_le hε' hε
+  have hδ0 : 0 < δ := lt_of_lt_of_le hδ' hδ
+  have hKK : (2 : ℝ) ≤ ((K * (K - 1) : ℕ) : ℝ) := by
+    have : 2 ≤ K * (K - 1) := by
+      have h1 : 1 ≤ K - 1 := by omega
+      calc 2 = 2 * 1 := by norm_num
+        _ ≤ K * (K - 1) := Nat.mul_le_mul hK h1
+    exact_mod_cast this
+  have hKpos : (0 : ℝ) < ((K * (K - 1) : ℕ) : ℝ) := by linarith
+  have hm4 : (4 : ℝ) ≤ ((4 * m : ℕ) : ℝ) := by
+    have : 4 ≤ 4 * m := by omega
+    exact_mod_cast this
+  -- the argument of the logarithm is ≥ 1 and grows when δ shrinks
+  have harg : ∀ d : ℝ, 0 < d → d ≤ 1 → 1 ≤ ((4 * m : ℕ) : ℝ) / (2 * d / ((K * (K - 1) : ℕ) : ℝ)) := by
+    intro d hd hd1
+    have hden : 0 < 2 * d / ((K * (K - 1) : ℕ) : ℝ) := by positivity
+    rw [le_div_iff₀ hden, one_mul, div_le_iff₀ hKpos]
+    nlinarith
+  have hmono : ((4 * m : ℕ) : ℝ) / (2 * δ / ((K * (K - 1) : ℕ) : ℝ))
+      ≤ ((4 * m : ℕ) : ℝ) / (2 * δ' / ((K * (K - 1) : ℕ) : ℝ)) := by
+    apply div_le_div_of_nonneg_left (by linarith) (by positivity)
+    apply div_le_div_of_nonneg_right (by linarith) hKpos.le
+  have hlog0 : 0 ≤ Real.log (((4 * m : ℕ) : ℝ) / (2 * δ / ((K * (K - 1) : ℕ) : ℝ))) :=
+    Real.log_nonneg (harg δ hδ0 hδ1)
+  have hlog : Real.log (((4 * m : ℕ) : ℝ) / (2 * δ / ((K * (K - 1) : ℕ) : ℝ)))
+      ≤ Real.log (((4 * m : ℕ) : ℝ) / (2 * δ' / ((K * (K - 1) : ℕ) : ℝ))) :=
+    Real.log_le_log (lt_of_lt_of_le one_pos (harg δ hδ0 hδ1)) hmono
+  have hsq : (c * s * β / ε) ^ 2 ≤ (c * s * β / ε') ^ 2 := by
+    rw [div_pow, div_pow]
+    apply div_le_div_of_nonneg_left (sq_nonneg _) (by positivity)
+    exact pow_le_pow_left₀ hε'.le hε 2
+  have h4 : 0 ≤ 4 * (c * s * β / ε) ^ 2 := by positivity
+  calc 4 * (c * s * β / ε) ^ 2 * Real.log (((4 * m : ℕ) : ℝ) / (2 * δ / ((K * (K - 1) : ℕ) : ℝ)))
+      ≤ 4 * (c * s * β / ε) ^ 2 * Real.log (((4 * m : ℕ) : ℝ) / (2 * δ' / ((K * (K - 1) : ℕ) : ℝ))) :=
+        mul_le_mul_of_nonneg_left hlog h4
+    _ ≤ 4 * (c * s * β / ε') ^ 2 * Real.log (((4 * m : ℕ) : ℝ) / (2 * δ' / ((K * (K - 1) : ℕ) : ℝ))) := by
+        apply mul_le_mul_of_nonneg_right _ (le_trans hlog0 hlog)
+        linarith
+
 end VOPy.C08
